@@ -442,6 +442,25 @@ _amend("C14", "rule", "Non-trivial", "A third of the streaming HTTP cases use an
 _amend("C16", "rule", "Non-trivial", "A 'long' rule kind continues a valid template to 20-40 segments (accepted or refused, never a panic); after a refused registration the refused rule's own paths and the base paths under its verbs must answer as before. Non-trivial")
 _amend("C17", "rule", "Non-trivial", "Caller buffers of 0-4096 bytes incl. 1024-3000, and for a third of the protobuf messages a size placed relative to that capacity (C-1 .. 2C+C/4+1). Non-trivial")
 
+# round 12
+_amend("C11", "rule", "Non-trivial", "Backend B2 is built from a newer svca.proto in which SvcA.Ping has one more binding: while B2 is registered that route must answer, by a live owner. Non-trivial")
+_amend("C12", "rule", "TestPropStress (readers", "TestPropStress (a third writer owns connection B2, so connection registrations and removals overlap each other; readers")
+_amend("C15", "rule", "Non-trivial", "gRPC-web-text (base64 framing) is among the cancellation transports. Non-trivial")
+_amend("C16", "rule", "Non-trivial", "An accepted binding with a body mapping is also served JSON bodies of every shape (object, string, number): never a panic. Non-trivial")
+_amend("C18", "rule", "Non-trivial", "The stats handler rewrites the metadata maps its events carry (it owns them) while every handler insists on one request header: the RPC must not notice. Non-trivial")
+_amend("C20", "rule", "Non-trivial", "The same extra-handler option values also build a second server on another mount: neither server may serve the other's prefix. Non-trivial")
+
+# round 13
+_amend("C01", "rule", "Non-trivial", "Every odd-numbered service declares a streaming method Feed (with a rule of its own, POST /rt-feed/svcN/{name}) BEFORE its unary method; Feed's bindings are probed and must never reach the unary method. Non-trivial")
+_amend("C03", "rule", "Non-trivial", "One case in fifteen binds the same rule as a WebSocket rule (URL part in the handshake, JSON body as the first text frame, in-memory connection). Non-trivial")
+_amend("C04", "rule", "Non-trivial", "A third of the handlers that set header metadata include the key content-type (text/plain, the other codec's type, ...): the response Content-Type must still name the codec of the bytes. Non-trivial")
+_amend("C09", "rule", "Non-trivial", "Handler status texts include bytes that are not UTF-8, the empty and a 5 kB text; query values include %ff-style bytes on typed fields; Accept may name either binary codec. Non-trivial")
+_amend("C10", "rule", "Non-trivial", "One metadata key in four looks like a protocol header without being one (grpc-*, grpc-trace*, content-*, te-*): every key the script sent is compared. A third of the HTTP-front requests carry the headers an HTTP/1.1 client adds about its own connection (Connection: keep-alive/close, Keep-Alive, Proxy-Connection). Non-trivial")
+_amend("C13", "rule", "release order drawn;", "release order drawn; every streaming handler hands SetTrailer one long-lived MD shared by all calls and then its own id, and each response's trailers must be exactly that;")
+_amend("C14", "rule", "Non-trivial", "Half of the handlers keep using the metadata.MD objects they handed over (values overwritten in place, keys added after each call; grpc copies what it is given), a quarter pass one long-lived MD to their first SetTrailer call and are served twice; key names include ones that look like protocol headers without being reserved (grpc-custom, grpc-trace-bin, content-typex). Non-trivial")
+_amend("C18", "rule", "Non-trivial", "One HTTP request in eight carries a message that reads fine but does not decode (the k-th of the body): no InPayload for a message nobody received. Non-trivial")
+_amend("C19", "rule", "Non-trivial", "In one healthz case of eight the health service lives on a backend reached through RegisterConn (discovered by reflection) instead of on the mux. Non-trivial")
+
 # native coverage-guided fuzzing of the same generators (thorough tier only)
 for _k, _t in (("C01", "FuzzRoute"), ("C03", "FuzzTranscode"), ("C16", "FuzzRegister"), ("C17", "FuzzCodec")):
     PROPS[_k]["fuzz"] = {"target": _t, "seconds": 120}
